@@ -4,7 +4,7 @@ PROP = 'C07'
 
 
 def run(tier):
-    histcheck.run(PROP, tier, lambda rnd, rep: dbgen.history(rnd, rnd.randint(3, 10)), 120, 6000,
+    histcheck.run(PROP, tier, lambda rnd, rep: dbgen.history(rnd, rnd.randint(3, 10)), 500, 10000,
                   rule='random histories of 3-10 operations over d0/1, d1/0, d1/2, d2/1 and a never-asserted predicate: assert_fact '
                        '(append/prepend), asserta/assertz/retract/retractall through YP.query and from compiled code with the goal '
                        'held in a bound variable, ground / partially bound / non-linear patterns, retract exhausted or abandoned '
